@@ -4,13 +4,16 @@ import SpecVerif.Proofs.C10
 
 Property theorems only (helper lemmas are in `Proofs/C10.lean`). Every theorem is about the executable
 definitions of `Model/C10.lean` (`pyEq` = `EqMethod.eq` under CPython's `==` dispatch, `deepcopy`,
-`reconstruct`, `reprOf`), which the correspondence check runs against the real `spec_classes`.
+`construct` = `InitMethod.init` across the inheritance chain, `reconstruct` (through `construct`), `reprOf`),
+which the correspondence check runs against the real `spec_classes`.
 
 Quantification: ANY class table `T` in which parents are defined before their subclasses (`wfTable`),
 ANY values — finite trees of scalars, lists, dicts, sets, nested instances, bound methods, functions,
 classes, modules, MISSING — that are well formed (`wfVal`: an instance carries one value per attribute
 of its class); the copy theorems additionally ask for `okVal` (acyclic; bound methods occur directly as
-attribute values, not inside containers). No bound on sizes, depths or the number of attributes.
+attribute values, not inside containers); the constructor theorems ask for `ownersOk` (every init-enabled
+attribute of the class is owned by a class whose constructor runs) and hold for ANY keyword arguments.
+No bound on sizes, depths (of values or of the inheritance chain) or the number of attributes.
 -/
 set_option linter.unusedSectionVars false
 set_option linter.unusedSimpArgs false
@@ -90,13 +93,60 @@ theorem deepcopy_eq {c : Nat} {fs : Vals} (hok : okVal (.inst c fs) = true) :
   have := ((dc_eq_all T).2.1 fs).2 (by simpa [okVal] using hok) (T.attrs c)
   simp [vEq, isProperSub, isSub_refl, this.2]
 
-/-- **reconstruct_eq.** Re-constructing an instance from its own attribute values gives an equal
-instance, provided every compared attribute is passed to the constructor (init-enabled, has a value) or
-still shows what a fresh instance shows (`reconstructible`). -/
-theorem reconstruct_eq {c : Nat} {fs : Vals} (hok : okVal (.inst c fs) = true)
+/-- **construct_eq_spec.** The constructor — run the way `InitMethod.init` runs it: the constructors of the
+parent spec classes base-most first, each given the keyword arguments of the attributes it owns (popped from the
+caller's, copied unless `do_not_copy`; the instance's default when nothing was passed), then the attributes
+owned by the class itself — shows, attribute by attribute, exactly `shown a kv`: the passed value when one was
+passed, else the default. For ANY class of any inheritance depth (plain subclasses included) whose init-enabled
+attributes are owned by the classes of its chain (`ownersOk`) and ANY keyword arguments. -/
+theorem construct_eq_spec {c : Nat} (h : ownersOk T c = true) (kw : Vals) :
+    construct T c kw = specFields (T.attrs c) kw := SpecVerif.C10.construct_eq_spec h kw
+
+/-- **construct_shows_passed.** A value passed for an init-enabled attribute is what the new instance shows
+(a copy of it unless `do_not_copy`) — WHATEVER the value is (`0`, `""`, `[]`, `None`, … are values like any
+other) and whichever class of the chain owns the attribute. -/
+theorem construct_shows_passed {c : Nat} (h : ownersOk T c = true) (kw : Vals)
+    (i : Nat) (hi : i < (T.attrs c).length) (hinit : ((T.attrs c)[i]).init = true)
+    (hp : (nthVal kw i).isMissing = false) :
+    nthVal (construct T c kw) i = protect ((T.attrs c)[i]) (nthVal kw i) := by
+  rw [construct_eq_spec h, nthVal_specFields _ _ _ hi]
+  simp [shown, hinit, hp]
+
+/-- **construct_shows_default.** An attribute for which nothing is passed (or that is not init-enabled) shows
+what a fresh instance shows. -/
+theorem construct_shows_default {c : Nat} (h : ownersOk T c = true) (kw : Vals)
+    (i : Nat) (hi : i < (T.attrs c).length)
+    (hp : ((T.attrs c)[i]).init = false ∨ (nthVal kw i).isMissing = true) :
+    nthVal (construct T c kw) i = ((T.attrs c)[i]).dflt := by
+  rw [construct_eq_spec h, nthVal_specFields _ _ _ hi]
+  rcases hp with hp | hp <;> simp [shown, hp]
+
+/-- **construct_passed_equal.** What the new instance shows for a passed value compares equal (as an
+attribute value) to the value passed. -/
+theorem construct_passed_equal {c : Nat} (h : ownersOk T c = true) (kw : Vals)
+    (i : Nat) (hi : i < (T.attrs c).length) (hinit : ((T.attrs c)[i]).init = true)
+    (hp : (nthVal kw i).isMissing = false) (hok : okVal (nthVal kw i) = true) :
+    attrEq T (nthVal (construct T c kw) i) (nthVal kw i) = true := by
+  rw [construct_shows_passed h kw i hi hinit hp]
+  unfold protect
+  split
+  · exact attrEq_refl T _
+  · exact ((dc_eq_all T).1 _ hok).2
+
+/-- **reconstruct_refines.** Re-construction through the constructor model is the attribute-wise
+specification `rcFields`. -/
+theorem reconstruct_refines {c : Nat} (h : ownersOk T c = true) (fs : Vals) :
+    reconstruct T (.inst c fs) = .inst c (rcFields (T.attrs c) fs) := by
+  simp [reconstruct, rcFields, construct_eq_spec h]
+
+/-- **reconstruct_eq.** Re-constructing an instance from its own attribute values — through the constructor
+as it runs (`construct`) — gives an equal instance, provided every compared attribute is passed to the
+constructor (init-enabled, has a value) or still shows what a fresh instance shows (`reconstructible`). -/
+theorem reconstruct_eq {c : Nat} {fs : Vals} (hown : ownersOk T c = true) (hok : okVal (.inst c fs) = true)
     (hrc : reconstructible T (T.attrs c) fs = true) :
     pyEq T (reconstruct T (.inst c fs)) (.inst c fs) = true := by
-  unfold pyEq reconstruct
+  rw [reconstruct_refines hown]
+  unfold pyEq
   have := rc_fields_eq T (T.attrs c) fs (by simpa [okVal] using hok) hrc
   simp [vEq, isProperSub, isSub_refl, this]
 
@@ -138,6 +188,47 @@ example : pyEq T1 (deepcopy T1 x2) x2 = true := by decide
 example : (reprOf T1 x1).map (fun r => r.2.map (·.1)) = some ["a", "cb", "hidden"] := by decide
 example : reconstructible T1 (T1.attrs 1) (.cons (.int 1) (.cons (.bound none 0) (.cons (.int 5) (.cons (.list .nil) .nil)))) = true := by
   decide
+
+
+/-! The constructor across an inheritance chain: `S(retries=3, labels=["default"], note)`, spec subclass `T(S)` adding
+`command="true"`, plain `Q(T)`, spec `U(T)` re-declaring `labels` (do_not_copy) and adding `z` (init=False). -/
+def aO (n : String) (ow : Nat) (d : Val) (dnc : Bool := false) (ini : Bool := true) : AttrInfo :=
+  { name := n, compare := true, repr := true, init := ini, doNotCopy := dnc, dflt := d, owner := ow }
+
+def dfl : Val := .list (.cons (.str "default") .nil)
+def sAttrs : List AttrInfo := [aO "retries" 1 (.int 3), aO "labels" 1 dfl, aO "note" 1 .missing]
+def T2 : Table :=
+  [ { name := "Child", parent := none, key := some 0, attrs := [aI "name" true true, aI "v" true true] },
+    { name := "S", parent := none, key := none, attrs := sAttrs },
+    { name := "T", parent := some 1, key := none, attrs := sAttrs ++ [aO "command" 2 (.str "true")] },
+    { name := "Q", parent := some 2, key := none, spec := false, attrs := sAttrs ++ [aO "command" 2 (.str "true")] },
+    { name := "U", parent := some 2, key := none,
+      attrs := [aO "retries" 1 (.int 3), aO "labels" 4 dfl true, aO "note" 1 .missing, aO "command" 2 (.str "true"),
+                aO "z" 4 (.int 7) false false] } ]
+
+/-- falsy values for the inherited attributes, nothing for `command` -/
+def kwFalsy : Vals := .cons (.int 0) (.cons (.list .nil) (.cons (.str "") (.cons .missing .nil)))
+
+example : wfTable T2 = true ∧ ownersOk T2 1 = true ∧ ownersOk T2 2 = true ∧ ownersOk T2 3 = true ∧ ownersOk T2 4 = true := by
+  decide
+example : metaOf T2 3 = 2 ∧ specParents T2 2 = [1] ∧ specParents T2 4 = [1, 2] := by decide
+/-- `T(retries=0, labels=[], note="")` shows `0`, `[]`, `""` and the default of `command` — also as plain `Q`. -/
+example : pyEq T2 (.inst 2 (construct T2 2 kwFalsy))
+    (.inst 2 (.cons (.int 0) (.cons (.list .nil) (.cons (.str "") (.cons (.str "true") .nil))))) = true := by decide
+example : pyEq T2 (.inst 3 (construct T2 3 kwFalsy))
+    (.inst 3 (.cons (.int 0) (.cons (.list .nil) (.cons (.str "") (.cons (.str "true") .nil))))) = true := by decide
+/-- three levels; `z` is not init-enabled and shows its class-level default -/
+example : pyEq T2 (.inst 4 (construct T2 4 kwFalsy))
+    (.inst 4 (.cons (.int 0) (.cons (.list .nil) (.cons (.str "") (.cons (.str "true") (.cons (.int 7) .nil)))))) = true := by
+  decide
+/-- nothing passed: the defaults, `note` stays missing -/
+example : pyEq T2 (.inst 2 (construct T2 2 .nil))
+    (.inst 2 (.cons (.int 3) (.cons dfl (.cons .missing (.cons (.str "true") .nil))))) = true := by decide
+def xFalsy : Val := .inst 2 (.cons (.int 0) (.cons (.list .nil) (.cons (.str "") (.cons (.str "ls") .nil))))
+example : okVal xFalsy = true ∧ reconstructible T2 (T2.attrs 2) (.cons (.int 0) (.cons (.list .nil) (.cons (.str "") (.cons (.str "ls") .nil)))) = true ∧
+    pyEq T2 (reconstruct T2 xFalsy) xFalsy = true := by decide
+/-- an attribute owned by a class outside the chain is outside `ownersOk` (no constructor assigns it) -/
+example : ownersOk [{ name := "X", parent := none, key := none, attrs := [aO "a" 5 .missing] }] 0 = false := by decide
 
 end Examples
 end SpecVerif.Props.C10
